@@ -222,7 +222,7 @@ func checkC09(c *ev.Ctx) {
 		}
 		roots = append(roots, "both:"+strings.Join(s, ","))
 	}
-	depth := 3
+	depth := 4
 	if c.Thorough() {
 		depth = 5
 	}
